@@ -249,7 +249,7 @@ func init() {
 		Rule: "histories of 10–40 operations over 2–6 iterators derived from 2–3 iterator literals of a parameterised family with a closed-form model (bounded counters with value function and step, two-argument and keyword-argument state, unguarded yield, several yields, recur before yield, no recur, guard depending on a captured variable the history reassigns, a body reading another iterator): " +
 			"new from the literal and from an advanced iterator, aliasing, next, try.next past the end, A, list chain, reduce chain, _iter.next, passing an iterator to a function that advances it; every operation's value (or StopIterErr) is compared with per-iterator state machines run independently. " +
 			"distinct = distinct (operation, literal kind, iterator-was-advanced, other-iterators-live) tuples judged; non-trivial = ≥2 live iterators from one literal" +
-			" Added: parameter-less literals keeping their state in `\\`, a family whose every second step yields nil first, strict list chains.",
+			" Added: parameter-less literals keeping their state in `\\`, a family whose every second step yields nil first, strict list chains. Sixth round: an iterator whose guarded yield steps another iterator (`taker`); bodies that assign to their own parameter (`reassign`).",
 		Assumptions: []string{
 			"model: new creates a fresh machine from the literal's parameters; next evaluates the body once with the current arguments; a false guarded yield raises StopIterErr and leaves the state; A/@/$ enumerate a copy up to the first stop; recur takes effect at the next `next`",
 			"A/@/$ are only applied to kinds that stop; built-in iterators are not judged (the statement speaks of iterator literals)",
